@@ -1,6 +1,7 @@
 from operator import xor
 
 import numpy as np
+from pb_bss import _verif
 import scipy.special
 from dataclasses import dataclass, field
 from pb_bss.distribution.complex_angular_central_gaussian import (
@@ -256,6 +257,7 @@ class CACGMMTrainer:
                     source_activity_mask=source_activity_mask,
                     affiliation_eps=affiliation_eps,
                 )
+                if _verif.enabled: _verif.emit('estep', trainer=self, iteration=iteration, model=model, affiliation=affiliation, quadratic_form=quadratic_form)
 
                 if inline_permutation_aligner is not None:
                     affiliation, quadratic_form \
@@ -265,6 +267,7 @@ class CACGMMTrainer:
                             weight_constant_axis=weight_constant_axis,
                             aligner=inline_permutation_aligner,
                         )
+                    if _verif.enabled: _verif.emit('align', trainer=self, iteration=iteration, affiliation=affiliation, quadratic_form=quadratic_form)
 
             model = self._m_step(
                 y,
@@ -276,6 +279,7 @@ class CACGMMTrainer:
                 eigenvalue_floor=eigenvalue_floor,
                 weight_constant_axis=weight_constant_axis,
             )
+            if _verif.enabled: _verif.emit('mstep', trainer=self, iteration=iteration, model=model, affiliation=affiliation, quadratic_form=quadratic_form)
 
         return model
 
